@@ -25,7 +25,9 @@ pub enum Fam {
     StrRaw,
     CharLit,
     FStr(usize),
+    FStrBrace(usize),
     FStrExtra,
+    LitPos,
     Ipv4,
     Ipv6,
     Ipv6All,
@@ -48,6 +50,10 @@ pub fn families(tier: Tier) -> Vec<Fam> {
     for i in 0..fstr_shapes(tier).len() {
         v.insert(16 + i, FStr(i));
     }
+    for i in 0..fbrace_shapes(tier).len() {
+        v.insert(16 + i, FStrBrace(i));
+    }
+    v.insert(8, LitPos);
     if tier == Tier::Thorough {
         v.push(Ipv6All);
     }
@@ -60,7 +66,7 @@ impl Fam {
     }
     pub fn chunk(self, tier: Tier) -> u64 {
         match self {
-            Fam::Keyword | Fam::Comment | Fam::Shebang => 400,
+            Fam::Keyword | Fam::Comment | Fam::Shebang | Fam::LitPos => 400,
             Fam::IdentFirst | Fam::IdentSecond => tier.pick(400, 4096),
             _ => tier.pick(1500, 3000),
         }
@@ -80,11 +86,13 @@ impl Fam {
             }
             Fam::FloatUnd => *fund_table(tier).1.last().unwrap(),
             Fam::StrEsc => esc_items().len() as u64 * 6,
-            Fam::StrCont => (ws_runs(tier.pick(2, 3)).len() * 4 * 3 + 5 * 2) as u64,
+            Fam::StrCont => (ws_runs(tier.pick(2, 3)).len() * 4 * 3 + CRLF_RUNS.len() * 2 * 3) as u64,
             Fam::StrRaw => n_texts(RAW.len() as u64, tier.pick(2, 3)),
             Fam::CharLit => (esc_items().len() + RAW_CHARS.len()) as u64,
             Fam::FStr(i) => fstr_shapes(tier)[i].iter().map(|l| n_texts(8, *l)).product(),
+            Fam::FStrBrace(i) => fbrace_shapes(tier)[i].iter().map(|l| n_texts(FBRACE.len() as u64, *l)).product(),
             Fam::FStrExtra => FSTR_EXTRA.len() as u64,
+            Fam::LitPos => (LITPOS.len() * POSITIONS.len()) as u64,
             Fam::Ipv4 => 9u64.pow(4),
             Fam::Ipv6 => 36 * 16 + 16,
             Fam::Ipv6All => 1593 + 65536,
@@ -121,7 +129,9 @@ impl Fam {
             Fam::StrRaw => str_raw(tier, idx),
             Fam::CharLit => char_lit(idx),
             Fam::FStr(i) => fstr(i, tier, idx),
+            Fam::FStrBrace(i) => fstr_brace(i, tier, idx),
             Fam::FStrExtra => fstr_extra(idx),
+            Fam::LitPos => lit_pos(idx),
             Fam::Ipv4 => ipv4(idx),
             Fam::Ipv6 => ipv6(idx),
             Fam::Ipv6All => ipv6_all(idx),
@@ -634,20 +644,26 @@ fn str_cont(tier: Tier, idx: u64) -> Case {
         let head = ["a", "", "é"][d[2] as usize];
         (format!("{head}\\\n{}{tail}", runs[d[0] as usize]), true)
     } else {
-        // `\` followed by CR LF: a newline on some systems, but not "a newline"
-        // in the narrow sense; not demanded
-        let d = decode(idx - main, &[5, 2]);
-        let run = ["", " ", "\t", "\n", "\r"][d[0] as usize];
+        // `\` followed by CR LF: the newline of a script saved with Windows
+        // line ends ("ignore any whitespace after a `\` followed by a newline")
+        let d = decode(idx - main, &[CRLF_RUNS.len() as u64, 2, 3]);
+        let run = CRLF_RUNS[d[0] as usize];
         let tail = ["b", ""][d[1] as usize];
-        (format!("a\\\r\n{run}{tail}"), false)
+        let head = ["a", "", "é"][d[2] as usize];
+        (format!("{head}\\\r\n{run}{tail}"), true)
     };
     let mut c = Case::new("string-continuation", Ty::Str, format!("\"{content}\""));
+    let crlf = idx >= main;
     if must {
-        c.expect = vec![Val::Str(dec_string(&content).unwrap())];
+        // CR LF counts as the newline: decode the LF form of the same text
+        c.expect = vec![Val::Str(dec_string(&content.replace("\r\n", "\n")).unwrap())];
         c.must_accept = true;
     }
+    c.tags = json!({"crlf_line_end": crlf});
     c
 }
+
+const CRLF_RUNS: [&str; 6] = ["", " ", "\t", "\r\n", "  ", " \r\n "];
 
 /// number of texts of length <= l over an alphabet of n symbols
 fn n_texts(n: u64, l: usize) -> u64 {
@@ -672,8 +688,14 @@ fn str_raw(_tier: Tier, idx: u64) -> Case {
     let content = text_of(&RAW, idx);
     let mut c = Case::new("string-raw", Ty::Str, format!("\"{content}\""));
     c.expect = vec![Val::Str(content.clone())];
-    // a carriage return inside a literal is not mentioned anywhere
-    c.must_accept = !content.contains('\r');
+    // the only carriage returns here are the CR of a CR LF line end (a string
+    // that spans lines in a script saved with Windows line ends); whether the
+    // value keeps the CR is not documented: both readings are accepted
+    if content.contains('\r') {
+        c.expect.push(Val::Str(content.replace("\r\n", "\n")));
+    }
+    c.must_accept = true;
+    c.tags = json!({"crlf_line_end": content.contains('\r')});
     c
 }
 
@@ -750,7 +772,7 @@ fn fstr(shape: usize, tier: Tier, idx: u64) -> Case {
 }
 
 /// (literal, expected, documented)
-const FSTR_EXTRA: [(&str, &str, bool); 17] = [
+const FSTR_EXTRA: [(&str, &str, bool); 21] = [
     ("f\"{\"é\"}\"", "é", true),
     ("f\"{f\"{7}\"}\"", "7", true),
     ("f\"a{ 7 }b\"", "a7b", true),
@@ -768,6 +790,11 @@ const FSTR_EXTRA: [(&str, &str, bool); 17] = [
     ("f\"{7}é\"", "7é", true),
     ("f\"é {x}\"", "é 42", true),
     ("f\"{\"漢\"} {x}\"", "漢 42", true),
+    // CR LF line ends inside the text of an f-string
+    ("f\"a\\\r\n   b{7}\"", "ab7", true),
+    ("f\"one\r\ntwo{7}\"", "one\r\ntwo7", true),
+    ("f\"{7}one\r\ntwo\"", "7one\r\ntwo", true),
+    ("f\"{\n7\r\n}\"", "7", true),
 ];
 
 fn fstr_extra(idx: u64) -> Case {
@@ -775,11 +802,140 @@ fn fstr_extra(idx: u64) -> Case {
     let mut c = Case::new("fstring", Ty::Str, lit);
     c.prog = Prog::Tail(format!("() -> String {{ let x = 42; {lit} }}"));
     c.expect = vec![Val::Str(exp.to_string())];
+    if exp.contains('\r') {
+        c.expect.push(Val::Str(exp.replace("\r\n", "\n")));
+    }
     c.must_accept = must;
     // text segments: everything outside the interpolations; only the cases
     // whose own text (not the interpolated expression) has a multi-byte char
     let nonascii = matches!(idx, 13 | 14 | 15);
-    c.tags = json!({"nonascii_text_segment": nonascii, "interpolations": lit.matches('{').count()});
+    c.tags = json!({"nonascii_text_segment": nonascii, "interpolations": lit.matches('{').count(),
+                    "crlf_line_end": matches!(idx, 17 | 18 | 19)});
+    c
+}
+
+// f-string texts in which braces are also written as escapes: "an escape never
+// counts as a brace" (only the source spelling `{{` / `}}` is the f-string
+// escape; `\x7b` is the character U+007B like in any string)
+const FBRACE: [&str; 7] = ["{{", "}}", "\\x7b", "\\x7d", "\\u{7b}", "\\u{7d}", "a"];
+
+pub fn fbrace_shapes(tier: Tier) -> &'static [&'static [usize]] {
+    match tier {
+        Tier::Quick => &[&[3], &[2, 2]],
+        Tier::Thorough => &[&[4], &[3, 2], &[2, 3]],
+    }
+}
+
+fn fstr_brace(shape: usize, tier: Tier, idx: u64) -> Case {
+    let shape = fbrace_shapes(tier)[shape];
+    let interps = shape.len() - 1;
+    let rad: Vec<u64> = shape.iter().map(|l| n_texts(FBRACE.len() as u64, *l)).collect();
+    let d = decode(idx, &rad);
+    let mut lit = String::from("f\"");
+    let mut exp = String::new();
+    let mut adjacent = false;
+    let mut segs = vec![];
+    for (i, ti) in d.iter().enumerate() {
+        // the symbols of this segment: (character it stands for, written as an escape)
+        let mut syms: Vec<(char, bool)> = vec![];
+        let seg = text_of(&FBRACE, *ti);
+        let mut n = *ti;
+        let mut len = 0u32;
+        while n >= 7u64.pow(len) {
+            n -= 7u64.pow(len);
+            len += 1;
+        }
+        for k in decode(n, &vec![7; len as usize]) {
+            syms.push(match k {
+                0 => ('{', false),
+                1 => ('}', false),
+                2 | 4 => ('{', true),
+                3 | 5 => ('}', true),
+                _ => ('a', false),
+            });
+        }
+        adjacent |= syms.windows(2).any(|w| w[0].0 == w[1].0 && w[0].0 != 'a' && (w[0].1 || w[1].1));
+        let want: String = syms.iter().map(|x| x.0).collect();
+        assert_eq!(dec_fstring_text(&seg).as_deref(), Some(want.as_str()));
+        lit += &seg;
+        exp += &want;
+        segs.push(seg);
+        if i < interps {
+            lit += "{7}";
+            exp += "7";
+        }
+    }
+    lit.push('"');
+    let mut c = Case::new("fstring", Ty::Str, lit.clone());
+    c.prog = Prog::Tail(format!("() -> String {{ let x = 42; {lit} }}"));
+    c.expect = vec![Val::Str(exp)];
+    c.must_accept = true;
+    c.tags = json!({"nonascii_text_segment": false, "segments": segs, "interpolations": interps,
+                    "escaped_brace_next_to_same_brace": adjacent});
+    c
+}
+
+// ------------------------------------------------------------------ literals in other positions
+
+/// (spelling, type, token kind)
+const LITPOS: [(&str, Ty, &str); 17] = [
+    ("255", Ty::I32, "integer"),
+    ("1_0u8", Ty::U8, "integer"),
+    ("-1", Ty::I32, "integer"),
+    ("0xFF", Ty::I32, "hex"),
+    ("1.5", Ty::F64, "float"),
+    ("5E-5", Ty::F64, "float"),
+    ("10.", Ty::F64, "float"),
+    ("'a'", Ty::Char, "char"),
+    ("'\\n'", Ty::Char, "char"),
+    ("\"s\"", Ty::Str, "string"),
+    ("f\"v{7}\"", Ty::Str, "fstring"),
+    ("1.2.3.4", Ty::Ip, "ipv4"),
+    ("::1", Ty::Ip, "ipv6"),
+    ("AS1234", Ty::Asn, "asn"),
+    ("1.1.1.0 / 24", Ty::Prefix, "prefix"),
+    ("if 1 < 2 { 255 } else { 0 }", Ty::I32, "if"),
+    ("match Option.Some(255) { Some(y) => y, None => 0 }", Ty::I32, "match"),
+];
+
+const POSITIONS: [&str; 7] = ["tail", "return-tail", "return-statement", "let", "parenthesised", "argument", "if-branch"];
+
+/// every kind of literal (and `if`/`match`, which the reference calls
+/// expressions) wherever the reference allows an expression
+fn lit_pos(idx: u64) -> Case {
+    let d = decode(idx, &[LITPOS.len() as u64, POSITIONS.len() as u64]);
+    let (sp, ty, tok) = LITPOS[d[0] as usize];
+    let pos = POSITIONS[d[1] as usize];
+    let t = ty.roto();
+    let src = match pos {
+        "tail" => format!("fn f() -> {t} {{ {sp} }}\n"),
+        "return-tail" => format!("fn f() -> {t} {{ return {sp} }}\n"),
+        "return-statement" => format!("fn f() -> {t} {{ return {sp}; }}\n"),
+        "let" => format!("fn f() -> {t} {{ let v = {sp}; v }}\n"),
+        "parenthesised" => format!("fn f() -> {t} {{ ({sp}) }}\n"),
+        "argument" => format!("fn id(v: {t}) -> {t} {{ v }}\nfn f() -> {t} {{ id({sp}) }}\n"),
+        _ => format!("fn f() -> {t} {{ if 1 < 2 {{ {sp} }} else {{ {sp} }} }}\n"),
+    };
+    let mut c = Case::new("literal-position", ty, format!("{sp} as {pos}"));
+    c.prog = Prog::Full(src);
+    c.expect = vec![match d[0] {
+        0 | 3 | 15 | 16 => Val::Int(255),
+        1 => Val::Int(10),
+        2 => Val::Int(-1),
+        4 => Val::F64(to_f64_bits(&dec_float_text("1.5").unwrap()).unwrap()),
+        5 => Val::F64(to_f64_bits(&dec_float_text("5E-5").unwrap()).unwrap()),
+        6 => Val::F64(to_f64_bits(&dec_float_text("10.").unwrap()).unwrap()),
+        7 => Val::Char('a' as u32),
+        8 => Val::Char(10),
+        9 => Val::Str("s".into()),
+        10 => Val::Str("v7".into()),
+        11 => Val::Ip(IpAddr::V4(dec_ipv4("1.2.3.4").unwrap())),
+        12 => Val::Ip(IpAddr::V6(dec_ipv6("::1").unwrap())),
+        13 => Val::Asn(1234),
+        _ => Val::Prefix(IpAddr::V4(dec_ipv4("1.1.1.0").unwrap()), 24),
+    }];
+    c.must_accept = true;
+    c.tags = json!({"position": pos, "token_kind": tok, "after_return": pos.starts_with("return"), "group": tok});
     c
 }
 
@@ -917,15 +1073,26 @@ fn prefix(idx: u64) -> Case {
 // ------------------------------------------------------------------ identifiers
 
 /// quick tier: all of ASCII, plus up to 64 evenly spaced code points of every
-/// (XID_Start?, XID_Continue?, UTF-8 length) class
+/// (XID_Start?, XID_Continue?, alphabetic?, numeric?, UTF-8 length) class
+/// (the two std predicates are there so that look-alike tests such as
+/// `is_alphanumeric` used in place of XID_Continue differ on many
+/// representatives), plus characters that are XID_Continue without being
+/// letters or digits: all combining marks U+0300-036F, virama, Thai tone
+/// mark, middle dot, undertie, connector punctuation, non-ASCII digits
 pub fn ident_reps() -> &'static Vec<char> {
     static L: OnceLock<Vec<char>> = OnceLock::new();
     L.get_or_init(|| {
-        let mut classes: std::collections::BTreeMap<(bool, bool, usize), Vec<char>> = Default::default();
+        let mut classes: std::collections::BTreeMap<(bool, bool, bool, bool, usize), Vec<char>> = Default::default();
         for cp in 0x80..0x110000u32 {
             if let Some(c) = char::from_u32(cp) {
                 classes
-                    .entry((unicode_ident::is_xid_start(c), unicode_ident::is_xid_continue(c), c.len_utf8()))
+                    .entry((
+                        unicode_ident::is_xid_start(c),
+                        unicode_ident::is_xid_continue(c),
+                        c.is_alphabetic(),
+                        c.is_numeric(),
+                        c.len_utf8(),
+                    ))
                     .or_default()
                     .push(c);
             }
@@ -937,7 +1104,14 @@ pub fn ident_reps() -> &'static Vec<char> {
                 v.push(cs[i * (cs.len() - 1) / (k - 1).max(1)]);
             }
         }
-        v.dedup();
+        v.extend((0x300..=0x36Fu32).filter_map(char::from_u32));
+        v.extend([
+            '\u{94D}', '\u{E48}', '\u{B7}', '\u{203F}', '\u{2040}', '\u{2054}', '\u{FE33}', '\u{FF3F}', '\u{660}',
+            '\u{669}', '\u{966}', '\u{FF10}', '\u{1D7CE}', '\u{200C}', '\u{200D}', '\u{387}', '\u{1369}',
+            '\u{19DA}', '\u{E0100}', '\u{20D0}', '\u{FE00}', '\u{A67C}', '\u{1DC0}',
+        ]);
+        let mut seen = std::collections::HashSet::new();
+        v.retain(|c| seen.insert(*c));
         v
     })
 }
